@@ -803,6 +803,10 @@ impl<T: El> MapWorld<T> {
                 self.st = None;
             }
             OpK::IterCheck => self.op_iter_check(op, &mut obs)?,
+            OpK::BorrowProbe => {
+                let n = crate::borrowcheck::map_probe(&self.r, self.cfg.hk, self.cfg.seed)?;
+                obs.u64(n);
+            }
             OpK::RawInsertWrongHash => {
                 // a logic error that must stay memory-safe: store (k, v) under a hash that is not k's
                 let right = self.m.hasher().hash_of(if T::ZST { 0 } else { k as u64 });
